@@ -59,7 +59,7 @@ def _worker(args):
         res = ctx.result()
         # plain data only: whatever the code under test returned (exception objects, closures, ...) must not break pickling
         res['samples'] = json.loads(json.dumps(enc(res['samples']), default=repr))
-        res['violations'] = json.loads(json.dumps(enc(res['violations']), default=repr))
+        res['violations'] = json.loads(json.dumps(res['violations'], default=repr))     # details are already plain data (checks enc() values)
         res['wall'] = time.time() - t0
         res['spec'] = spec
         return ('ok', res)
